@@ -13,9 +13,7 @@ shutil.copy(demo, f'{dst}/' + os.path.basename(demo) + '.txt')  # .txt so that i
 readme = open(f'{src}/README.md').read()
 shutil.copy(f'{src}/README.md', f'{dst}/README.md')
 res = ''
-for l in open('/tmp/seed_verify_all.log'):
-    if f'id={prop} variant={var} ' in l: res = l.strip()
-for f in glob.glob('/tmp/seed_verify_all*.log'):
+for f in glob.glob('/tmp/seedverify/results.log'):
     for l in open(f):
         if f'id={prop} variant={var} ' in l: res = l.strip()
 dest = re.search(r'dest=(\S+)', res).group(1) if res else '.'
@@ -24,7 +22,7 @@ meta = {
  "site": re.findall(r'^\+\+\+ b/(\S+)', open(f'{src}/patch.diff').read(), re.M),
  "needs_to_manifest": (re.search(r'(?is)(trigger|manifest)[^\n]*\n(.{0,600})', readme).group(0)[:700] if re.search(r'(?i)trigger|manifest', readme) else readme[:500]),
  "demonstration": os.path.basename(demo) + '.txt' + f' (in-package test; copy to {dest}/{os.path.basename(demo)} in the repository)',
- "confirmed_by_me": {"what_i_ran": "tools: /tmp/seedtools/verify_seed.sh in a scratch worktree of the pinned commit fc26ed5: (1) demo on the pinned code, (2) demo with patch.diff applied, (3) the baseline suite of the affected module with the patch applied (every stable_pass test must still pass)", "result": res},
+ "confirmed_by_me": {"what_i_ran": "tools/verify_seed.sh in a scratch worktree of /repo HEAD: (1) the demonstration on the unchanged code, (2) the demonstration with patch.diff applied, (3) the existing suite of every touched module with the patch applied (every stable_pass test of /root/.vp/BASELINE.json must still pass; tools/suite_ok.py)", "result": res},
  "checked_against_verif": {"command": f"tools/run_seed.sh seeded/{prop}-{var}/patch.diff {prop}", "detected": det, "detected_by": by},
  "origin": "independent sub-agent given only the property text and a scratch worktree"
 }
